@@ -278,10 +278,14 @@ func (vc *VC) makeIface(x Term, t types.Type) Term {
 	key := sanitize(vc.structKey(t))
 	s := vc.sortOf(t)
 	box, unbox := "box$"+key, "unbox$"+key
+	first := !vc.q.IsDeclared(box)
 	vc.q.DeclareFun(box, []Sort{s}, SPtr)
 	vc.q.DeclareFun(unbox, []Sort{SPtr}, s)
+	if first {
+		// boxing is injective (stated once per boxed type, so that boxed terms may contain bound variables)
+		vc.q.Raw(fmt.Sprintf("(assert (forall ((v!bx %s)) (! (= (%s (%s v!bx)) v!bx) :pattern ((%s v!bx)))))", s, unbox, box, box))
+	}
 	b := App(SPtr, box, x)
-	vc.q.Assert(Eq(App(s, unbox, b), x))
 	return MkIface(id, b)
 }
 
